@@ -87,6 +87,23 @@ func RunOne(sc *Scenario, seed uint64, o RunOpts) *Outcome {
 			or = prop + ".SPIN.livelock"
 		}
 		out.Violation = &simrt.Violation{Oracle: or, Msg: "busy-wait detected: " + s.SpinHit + " (sole runnable task for the spin limit of consecutive steps, no timer pending)", Step: s.Steps()}
+	case s.Trunc:
+		// the run hit the step limit (ordinary runs take a few hundred steps, the limit
+		// is 20 000): tasks keep taking steps without the scenario ever finishing — a
+		// livelock that escapes the busy-wait detector because it keeps spawning tasks
+		or := "HARNESS.step-limit"
+		if ctx != nil && ctx.SpinOracle != "" {
+			or = ctx.SpinOracle
+		} else if ctx != nil && ctx.PanicOracle != "" {
+			prop := PropOf(ctx.PanicOracle)
+			for _, p := range sc.Props {
+				if p == ctx.Only {
+					prop = p
+				}
+			}
+			or = prop + ".SPIN.livelock"
+		}
+		out.Violation = &simrt.Violation{Oracle: or, Msg: fmt.Sprintf("the run did not finish within the step limit (%d steps): calls that never return; still active: %s", s.Steps(), s.StalledString()), Step: s.Steps()}
 	case mainBlocked(s.Stalled) && !s.Trunc:
 		// the scenario's driver never returned: it is blocked inside a library
 		// call that cannot block by contract, and nothing can wake it
